@@ -26,14 +26,25 @@ GARBAGE = {"ebyte": b"\x01\x02\x03\x04\x05", "actisense": b"garbage\r\nA0000", "
 FAULTS = ("eof", "reset", "write_fail", "garbage_eof", "refuse_next", "unreach_next")
 
 
+def sp_write_fail_sync(sess):
+    """the next write fails in write() itself while the read side of the link stays up (the old receive loop is still running
+    when send()'s failure handler reconnects)"""
+    if sess.gw.fail_write_armed:
+        return False
+    sess.gw.write_error_sync = True
+    sess.gw.write_error = lambda: RuntimeError("unable to perform operation on the transport (injected, write only)")
+    sess.gw.fail_write_armed = True
+    return True
+
+
 def specials(kind):
-    return {"eof": sp_eof, "reset": sp_reset, "write_fail": sp_write_fail,
+    return {"write_fail_sync": sp_write_fail_sync, "eof": sp_eof, "reset": sp_reset, "write_fail": sp_write_fail,
             "garbage_eof": sp_garbage_eof(GARBAGE[kind]), "refuse_next": sp_refuse_next,
             "unreach_next": vloop.sp_fail_next("noport" if kind == "waveshare" else "unreachable"),
             "send": vloop.sp_send(lambda: clientkit.heading_message(44))}       # not a fault: an application send() landing at this point
 
 
-def make_kwargs_factory(kind, base, status_mode="ok", recv_mode="ok", with_send=True):
+def make_kwargs_factory(kind, base, status_mode="ok", recv_mode="ok", with_send=True, bystander=False):
     pk = clientkit.std(kind)
     a = pk["A"]
     sp = specials(kind)
@@ -47,7 +58,7 @@ def make_kwargs_factory(kind, base, status_mode="ok", recv_mode="ok", with_send=
                            + ([it_send(lambda: clientkit.heading_message(66))] if with_send else []),
                     specials=sp, deviations=devs, heal=steady_state(pk["PROBE"]),
                     connect_plan=BASES[base], status_cb=status_mode, recv_cb=recv_mode,
-                    settle=330.0)      # waits of up to five and a half minutes are followed (a delay capped anywhere below is fine)
+                    settle=330.0, bystander=bystander)      # waits of up to five and a half minutes are followed (a delay capped anywhere below is fine)
     return make
 
 
@@ -136,7 +147,7 @@ def _explore(args):
     kind, base, k, names, first = args[:5]
     modes = args[5] if len(args) > 5 else ("ok", "ok")
     with_send = not (len(modes) > 2 and modes[2] == "nosend")
-    make = make_kwargs_factory(kind, base, modes[0], modes[1], with_send)
+    make = make_kwargs_factory(kind, base, modes[0], modes[1], with_send, bystander=len(modes) > 3 and modes[3] == "bystander")
     probe_view = expected_probe(kind)
     stats = {"judged": 0, "outcomes": set(), "nontrivial": 0, "boundaries_base": 0, "max_attempts": 0}
     vios, samples = [], []
@@ -196,6 +207,9 @@ def plan(ctx):
             if ctx.thorough:
                 tasks.append((kind, "r1", 3, race, [f], (["slow"], "ok", "nosend")))
         tasks.append((kind, "r1", 2 if ctx.thorough else 1, names, None, ("ok", "ok", "nosend")))
+        # another client object of the same class in the same loop, retrying a gateway that is down all the while
+        tasks.append((kind, "r1", 2 if ctx.thorough else 1, ["eof", "reset", "write_fail"], None, ("ok", "ok", "send", "bystander")))
+        tasks.append((kind, "r0", 2, ["write_fail_sync", "send", "eof"], ["write_fail_sync"]))
     return tasks
 
 
@@ -239,7 +253,7 @@ def run(ctx):
 def replay(ctx, rep):
     c = rep["case"]
     md = c.get("modes", ["ok", "ok"])
-    make = make_kwargs_factory(c["client"], c["base"], md[0], md[1], not (len(md) > 2 and md[2] == "nosend"))
+    make = make_kwargs_factory(c["client"], c["base"], md[0], md[1], not (len(md) > 2 and md[2] == "nosend"), bystander=len(md) > 3 and md[3] == "bystander")
     devs = [tuple(d) for d in c["deviations"]]
     sess, o = vloop.run_session(**make(devs))
     sess2, o2 = vloop.run_session(**make(devs))
